@@ -16,6 +16,11 @@ def fmt_17g(x):
     return "%.17g" % float(x)
 
 
+def fmt_16e(x):
+    """what AMReX itself writes: -1.9433193555115220e-23"""
+    return "%.16e" % float(x)
+
+
 class Box:
     __slots__ = ("lo", "hi")
 
@@ -368,6 +373,27 @@ def _payload(m, lv, bi, b, payload, nprng):
                 if np.isnan(arr[..., f]).all():
                     arr[..., f] = keep[..., f]
         return arr
+    if payload == "extreme":
+        # magnitudes at both ends of the float64 range, so that the extrema written to the level
+        # headers are negative numbers with three-digit exponents, denormals, huge values
+        arr = np.empty(shp)
+        for f in range(shp[-1]):
+            mode = int(nprng.integers(0, 4))
+            sub = b.shape
+            if mode == 0:
+                a = np.sign(nprng.random(sub) - 0.5) * 10.0 ** nprng.uniform(100, 300, sub)
+            elif mode == 1:
+                a = nprng.random(sub) + 0.5
+                k = nprng.random(sub) < 0.2
+                a[k] = -(10.0 ** -nprng.uniform(100, 320, int(k.sum())))
+            elif mode == 2:
+                a = -(nprng.random(sub) + 0.5)
+                k = nprng.random(sub) < 0.2
+                a[k] = 10.0 ** -nprng.uniform(100, 320, int(k.sum()))
+            else:
+                a = np.sign(nprng.random(sub) - 0.5) * 5e-324 * nprng.integers(1, 1000, sub)
+            arr[..., f] = a
+        return arr
     if payload == "nearconst":
         # values that vary only in their last digits inside a box (ambient temperature, trace species):
         # anything that decides "uniform" with a tolerance instead of equality flattens them
@@ -436,9 +462,17 @@ def _payload(m, lv, bi, b, payload, nprng):
 
 
 def write_plotfile(m, path, ref_ratio_extra=0, trailing_blank=True, close_blank=False,
-                   floatfmt="repr", levels=None):
+                   floatfmt="repr", levels=None, index_shift=0):
     """Write model m at `path`. Records m.offsets / m.files (per level, per box)."""
-    ff = fmt_repr if floatfmt == "repr" else fmt_17g
+    ff = {"repr": fmt_repr, "17g": fmt_17g, "16e": fmt_16e}[floatfmt]
+    # index space that does not start at 0 (level-0 shift s, level lv shift s * 2**lv). NOT used by any
+    # check: the repository derives grid sizes as "domain hi + 1", i.e. it assumes a zero-based domain
+    # throughout, so such plotfiles are outside the well-formed inputs the properties quantify over
+    # (kept for experiments; see DESIGN section 11, seeded/C15_e)
+    m.index_shift = int(index_shift)
+
+    def sh(v, lv):
+        return [x + m.index_shift * 2 ** lv for x in v]
     if os.path.exists(path):
         shutil.rmtree(path)
     os.makedirs(path)
@@ -461,7 +495,7 @@ def write_plotfile(m, path, ref_ratio_extra=0, trailing_blank=True, close_blank=
             fh = handles[fn]
             offsets[bi] = fh.tell()
             b = m.boxes[lv][bi]
-            lo = ",".join(map(str, b.lo)); hi = ",".join(map(str, b.hi))
+            lo = ",".join(map(str, sh(b.lo, lv))); hi = ",".join(map(str, sh(b.hi, lv)))
             fh.write(f"{FABHDR}(({lo}) ({hi}) ({zero})) {m.nfields}\n".encode("ascii"))
             fh.write(m.data[lv][bi].tobytes(order="F"))
         for fh in handles.values():
@@ -471,7 +505,7 @@ def write_plotfile(m, path, ref_ratio_extra=0, trailing_blank=True, close_blank=
             ch.write("1\n1\n%d\n0\n" % m.nfields)
             ch.write(f"({nb} 0\n")
             for b in m.boxes[lv]:
-                lo = ",".join(map(str, b.lo)); hi = ",".join(map(str, b.hi))
+                lo = ",".join(map(str, sh(b.lo, lv))); hi = ",".join(map(str, sh(b.hi, lv)))
                 ch.write(f"(({lo}) ({hi}) ({zero}))\n")
             ch.write(") \n" if close_blank else ")\n")
             ch.write(f"{nb}\n")
@@ -497,7 +531,7 @@ def write_plotfile(m, path, ref_ratio_extra=0, trailing_blank=True, close_blank=
         h.write(" ".join(ff(v) for v in m.geo_high) + tb + "\n")
         nrr = nl - 1 + ref_ratio_extra
         h.write(" ".join(["2"] * nrr) + (tb if nrr else "") + "\n")
-        doms = [f"(({zero}) ({','.join(str(g - 1) for g in m.grid_sizes[lv])}) ({zero}))"
+        doms = [f"(({','.join(str(x) for x in sh([0] * nd, lv))}) ({','.join(str(x) for x in sh([g - 1 for g in m.grid_sizes[lv]], lv))}) ({zero}))"
                 for lv in range(nl)]
         h.write(" ".join(doms) + tb + "\n")
         h.write(" ".join(str(s) for s in m.steps) + tb + "\n")
